@@ -438,7 +438,12 @@ def lookup_problems(tracks, T: int) -> list[str]:
         members = by_tid.get(tid, [])
         for t in range(T + 2):
             has = any(g.nodes[n]["time"] == t for n in members)
-            if bool(tracks.has_track_id_at_time(tid, t)) != has:
+            try:
+                got = bool(tracks.has_track_id_at_time(tid, t))
+            except Exception as e:  # noqa: BLE001  a query never raises on a reachable state
+                out.append(f"query:has_track_id_at_time({tid},{t}) raised {type(e).__name__}")
+                return out
+            if got != has:
                 out.append(f"query:has_track_id_at_time({tid},{t}) != {has}")
     for tid in list(by_tid) + absent:
         if tid is None:
@@ -450,7 +455,11 @@ def lookup_problems(tracks, T: int) -> list[str]:
             ep = max(before, key=lambda n: g.nodes[n]["time"]) if before else None
             es = min(after, key=lambda n: g.nodes[n]["time"]) if after else None
             # ties (two nodes of one track in one frame) only exist in invalid states
-            p, s = tracks.get_track_neighbors(tid, t)
+            try:
+                p, s = tracks.get_track_neighbors(tid, t)
+            except Exception as e:  # noqa: BLE001
+                out.append(f"query:get_track_neighbors({tid},{t}) raised {type(e).__name__}")
+                return out
             tp = None if p is None else g.nodes[p]["time"]
             ts = None if s is None else g.nodes[s]["time"]
             if (None if ep is None else g.nodes[ep]["time"]) != tp or (None if es is None else g.nodes[es]["time"]) != ts \
@@ -1439,11 +1448,87 @@ def controller_sessions(prop: str, rng: random.Random, n: int, res: Result) -> l
                     stop = True
                 if prop == "C07" and kind == "paint" and case.cfg == "seg":
                     pass
-            for p_ in (state_problems(case, t) if not stop else []):
+            try:
+                sp_ = state_problems(case, t) if not stop else []
+            except Exception as e:  # noqa: BLE001
+                sp_ = [f"oracle-raised:{type(e).__name__} while reading the state"]
+            for p_ in sp_:
                 fail(f"{kind}|{p_.split(':')[0]}", f"after {op} ({out}): {p_}")
                 stop = True
                 break
             if stop:
+                break
+    return fails
+
+
+# ---------------------------------------------------------------------------------------------
+# C20 with SEVERAL listeners, one of which reacts to a refresh by making an edit of its own
+# (a view that tags the node it is told about): every listener must still be told once per
+# successful top-level action — the outer one and the nested reaction
+# ---------------------------------------------------------------------------------------------
+def reentrant_refresh_cases(prop: str, rng: random.Random, n: int, res: Result) -> list[Failure]:
+    fails: list[Failure] = []
+    seen: set = set()
+    for _ in range(n):
+        spec = G.gen_case(rng, cfg=rng.choice(["pos", "axes", "seg"]))
+        try:
+            case = F.Case(spec)
+            t = case.build()
+        except Exception as e:
+            res.count(f"session-aborted:{type(e).__name__}")
+            continue
+        if t.graph.number_of_nodes() < 1:
+            continue
+        order = rng.choice(["reactor-first", "reactor-last"])
+        got: list = []
+        state = {"busy": False, "arm": False, "reacted": 0}
+
+        def reactor(node=None):
+            if state["busy"] or not state["arm"]:
+                return
+            ns = list(t.graph.nodes)
+            if not ns:
+                return
+            state["busy"] = True
+            try:
+                UserUpdateNodeAttrs(t, rng.choice(ns), {"score": rng.randrange(100)})
+                state["reacted"] += 1
+            finally:
+                state["busy"] = False
+
+        def passive(node=None):
+            got.append(node)
+
+        for cb in ((reactor, passive) if order == "reactor-first" else (passive, reactor)):
+            t.refresh.connect(cb)
+        ses = Session.__new__(Session)
+        ses.case, ses.tracks, ses.refresh, ses.payload = case, t, 0, None
+        hist: list = []
+        kinds = ["addedge", "deledge", "addnode", "delnode", "swap", "updattrs", "undo", "redo"] + (["paint"] if case.cfg == "seg" else [])
+        for _step in range(rng.randint(2, 6)):
+            op = G.gen_op(rng, case, t, kinds)
+            state["arm"] = rng.random() < 0.6
+            nu, nr = len(t.action_history.undo_stack), len(t.action_history.redo_stack)
+            got.clear()
+            state["reacted"] = 0
+            try:
+                out = ses.apply(op)
+            except Hang:
+                break
+            hist.append({k: v for k, v in op.items() if k != "groups"} | {"_out": out, "_reaction_armed": state["arm"]})
+            res.evaluations += 1
+            # the reaction, when it happened, is a second successful top-level action
+            expected = (1 if out in ("ok", "true") and op["op"] in EDIT_OPS | {"undo", "redo"} else 0) + state["reacted"]
+            res.count(f"reentrant:{order}:{'armed' if state['arm'] else 'passive'}:{op['op']}")
+            res.nontrivial.add(h([spec["nodes"], hist[-1], order]))
+            if len(got) != expected:
+                sig = f"{prop}|listeners|{order}|refresh-count"
+                if sig not in seen:
+                    seen.add(sig)
+                    fails.append(Failure("oracle", prop, sig,
+                                         f"two listeners ({order}); after {hist[-3:]} the passive listener was told "
+                                         f"{len(got)} time(s), {expected} successful top-level action(s) happened",
+                                         {"spec": spec, "listener_history": copy.deepcopy(hist), "order": order}))
                 break
     return fails
 
@@ -2077,6 +2162,9 @@ def worker(args) -> Result:
             res.failures.append(f)
     if prop in ("C01", "C02", "C03", "C04", "C05", "C06", "C07", "C08", "C09", "C11", "C20") and fixed is None:
         for f in controller_sessions(prop, random.Random(seed ^ 0xC7A1), max(6, nsessions // 8), res):
+            res.failures.append(f)
+    if prop == "C20" and fixed is None:
+        for f in reentrant_refresh_cases(prop, random.Random(seed ^ 0x2E), max(10, nsessions // 4), res):
             res.failures.append(f)
     if prop == "C10" and fixed is None:
         for f in prim_frozen_cases(prop, random.Random(seed ^ 0xF0E), max(20, nsessions // 2), res):
